@@ -63,7 +63,8 @@ ASSUMPTIONS = ['a restart is a new BatchSimulation built from the same (or a '
 REQUIRED_COUNTERS = ['histories_checked', 'trial_boundary_faults',
                      'line_failpoints_fired', 'torn_write_deaths',
                      'restarts_completed', 'ids_checked',
-                     'distinct_line_locations_hit']
+                     'distinct_line_locations_hit',
+                     'near_miss_growth_histories']
 SHARD_TIMEOUT = {'quick': 1200, 'thorough': 5400}
 BINS_PER_CPU = 4
 
@@ -71,6 +72,9 @@ BINS_PER_CPU = 4
 # --------------------------------------------------------------------------
 # offline checker
 # --------------------------------------------------------------------------
+
+FOREIGN_RATE = 0.987
+
 
 def sim_key(inputs):
     return json.dumps(inputs, sort_keys=True)
@@ -96,6 +100,11 @@ def check_final(out, desc, mech, final, target, n_sims, last_save, foreign,
     if final is None or not isinstance(final, list):
         bad('no-results-file', 'no readable results file after the restart')
         return False
+    # a planted foreign record may legitimately still sit in the file (when
+    # the restarted run had nothing left to do it never rewrites the file);
+    # it is not one of the specification's simulations
+    final = [r for r in final
+             if r['inputs'].get('error_rate') != FOREIGN_RATE]
     if len(final) != n_sims:
         bad('simulation-count', f'{len(final)} records in the file, '
             f'{n_sims} simulations in the specification')
@@ -123,6 +132,22 @@ def check_final(out, desc, mech, final, target, n_sims, last_save, foreign,
                         f'trial id {tid:#x} belongs to a record with '
                         'different inputs')
                     break
+    if not tracer and len(final) > 1:
+        # without unique ids: two simulations sharing an identical, long
+        # list of 2k-bit outcomes is adoption (probability of coincidence
+        # is negligible only for lists with enough failures, so require a
+        # non-constant list)
+        # judged only on lists with >= 12 non-trivial outcomes: two
+        # independent runs then coincide with probability < 2^-12
+        lists = [json.dumps(r['results']['effective_error'])
+                 for r in final
+                 if sum(1 for x in r['results']['effective_error']
+                        if any(x)) >= 12]
+        out.count('adoption_lists_judged', len(lists))
+        if len(set(lists)) < len(lists):
+            bad('identical-trial-lists-in-two-simulations',
+                'two simulations of the final file carry the same '
+                'non-trivial list of outcomes')
     if last_save:
         fin = {sim_key(r['inputs']): r for r in final}
         for rec in last_save:
@@ -177,7 +202,7 @@ def plant_foreign(out_file, tracer_like=True):
     if not data:
         return set()
     rec = json.loads(json.dumps(data[0]))
-    rec['inputs']['error_rate'] = 0.987
+    rec['inputs']['error_rate'] = FOREIGN_RATE
     n = len(rec['results']['effective_error'])
     k2 = len(rec['results']['effective_error'][0]) if n else 18
     ids = set()
@@ -289,6 +314,43 @@ def boundary_histories(tier, fmt, tracer):
                      'kind': kind, 'nsims': 2}],
                     'final': {'spec': spec, 'target': T, 'sf': sf,
                               'nsims': 2}})
+    return hs
+
+
+def near_miss_histories():
+    """The specification grows by a simulation whose inputs differ from a
+    record already in the file only inside a nested parameter dict (an empty
+    dict vs a filled one, a key present vs absent): it must start from zero,
+    never adopt the other record's trials."""
+    hs = []
+    plain = {'tag': 0}
+    axis = {'tag': 0, 'extra': {'deformation_axis': 'x'}}
+    other = {'tag': 0, 'extra': {'deformation_axis': 'y'}}
+    pm = {'r_x': 0.2, 'r_y': 0.2, 'r_z': 0.6, 'deformation_name': 'XZZX'}
+    pm_x = dict(pm, deformation_kwargs={'deformation_axis': 'x'})
+    pm_y = dict(pm, deformation_kwargs={'deformation_axis': 'y'})
+    for fmt in ('json', 'gz'):
+        for first, then in (([plain], [plain, axis]), ([axis], [axis, plain]),
+                            ([axis], [axis, other]),
+                            ([plain, axis], [plain, axis, other])):
+            for stop in (3, 10 ** 6):
+                s1 = V.tracer_spec([0.1], models=first)
+                s2 = V.tracer_spec([0.1], models=then)
+                hs.append({'fmt': fmt, 'tracer': True, 'rounds': [
+                    {'spec': s1, 'target': 4, 'sf': 1, 'stop_after': stop,
+                     'kind': 'kill', 'nsims': len(first)}],
+                    'final': {'spec': s2, 'target': 5, 'sf': 2,
+                              'nsims': len(then)}})
+        for first, then in (([pm], [pm, pm_x]), ([pm_x], [pm_x, pm]),
+                            ([pm_x], [pm_x, pm_y])):
+            s1 = V.real_spec([0.4], models=first)
+            s2 = V.real_spec([0.4], models=then)
+            hs.append({'fmt': fmt, 'tracer': False, 'real_adoption': True,
+                       'rounds': [
+                {'spec': s1, 'target': 60, 'sf': 7, 'stop_after': 10 ** 6,
+                 'kind': 'kill', 'nsims': len(first)}],
+                'final': {'spec': s2, 'target': 60, 'sf': 7,
+                          'nsims': len(then)}})
     return hs
 
 
@@ -542,6 +604,7 @@ def plan(tier, seed):
         for tracer in (True, False):
             tasks.append({'kind': 'boundary', 'fmt': fmt, 'tracer': tracer,
                           'tier': tier, 'cost': 3000})
+    tasks.append({'kind': 'nearmiss', 'cost': 4000})
     nh = 40 if tier == 'quick' else 1200
     per = 10 if tier == 'quick' else 50
     for i in range(nh // per):
@@ -581,6 +644,10 @@ def run_task(task, out):
         for h in boundary_histories(task['tier'], task['fmt'],
                                     task['tracer']):
             run_history(out, h, 'boundary')
+    elif k == 'nearmiss':
+        for h in near_miss_histories():
+            run_history(out, h, 'near-miss-growth')
+        out.count('near_miss_growth_histories')
     elif k == 'random':
         rng = np.random.default_rng([task['seed'], 1213, task['i']])
         for h in random_histories(rng, task['n'], task['tier']):
